@@ -300,6 +300,134 @@ def h_two_chips(ctx, W, routes_a, routes_b, srcs_b, target):
     _check_process_state(ctx)
 
 
+def _matches(pk, km):
+    return (pk & km[1]) == km[0]
+
+
+def _dom(pk, entry, als):
+    """pk belongs to what the entry stands for: one of its aliases, or the
+    entry itself when it is an original."""
+    if als is None:
+        return _matches(pk, (entry.key, entry.mask))
+    return sor(*[_matches(pk, a) for a in als])
+
+
+def _step_lookup(table, alias_sets, pk, rid):
+    """First match over a table with alias sets: (in domain, route id of the
+    first matching entry, source bits of it)."""
+    indom = False
+    route = const(-1)
+    src = const(0)
+    for e, als in reversed(list(zip(table, alias_sets))):
+        hit = _matches(pk, (e.key, e.mask))
+        indom = sor(indom, _dom(pk, e, als))
+        route = ite(hit, const(rid(e.route)), route)
+        src = ite(hit, const(_src_bits(e.sources)), src)
+    return indom, route, src
+
+
+def _gen(e, W):
+    g = 0
+    for b in range(W):
+        g = g + ite((e.mask & (1 << b)) == 0, 1, 0)
+    return g
+
+
+def _invariant(ctx, table, alias_sets, window_keys, W):
+    """I1 sortedness, I2 alias inside entry, I3 no hiding -- as one list of
+    conditions (each non-forking)."""
+    conds = []
+    gs = [_gen(e, W) for e in table]
+    for i in range(len(table) - 1):
+        conds.append(("I1", gs[i] <= gs[i + 1]))
+    for e, als in zip(table, alias_sets):
+        for a in (als or ()):
+            conds.append(("I2", sand((a[1] & e.mask) == e.mask,
+                                     (a[0] & e.mask) == e.key,
+                                     (a[0] & ~a[1] & F32) == 0)))
+    for j in range(len(table)):
+        for i in range(j):
+            for k in window_keys:
+                conds.append(("I3", sor(
+                    snot(_dom(k, table[j], alias_sets[j])),
+                    snot(_matches(k, (table[i].key, table[i].mask))),
+                    _dom(k, table[i], alias_sets[i]))))
+    return conds
+
+
+def h_step(ctx, W, routes, srcs, n_aliases):
+    """One inductive merge step of ordered covering from an arbitrary state
+    satisfying the invariant: a generality-sorted table in which entry i is
+    either an original (n_aliases[i] == 0) or a merged entry standing for
+    n_aliases[i] symbolic aliases.  The real _get_best_merge + _Merge.apply
+    run once; the invariant, the domain of keys the table stands for and the
+    first-match route of every key of that domain are proved unchanged."""
+    from rig.routing_table import ordered_covering as oc
+    n = len(routes)
+    win = (1 << W) - 1
+    hi = F32 & ~win
+    table = make_table(ctx, n, W, routes, srcs, "sorted", False)
+    P_hi = table[0].key & hi if n else const(0)
+    alias_sets = []
+    aliases = {}
+    for i, e in enumerate(table):
+        if not n_aliases[i]:
+            alias_sets.append(None)
+            continue
+        als = []
+        for _ in range(n_aliases[i]):
+            kw = ctx.bv("ak", W)
+            mw = ctx.bv("am", W)
+            als.append((P_hi | kw, const(hi) | mw))
+        alias_sets.append(als)
+        aliases[(e.key, e.mask)] = set(als)
+        # a merged entry's key-mask is its own: no other entry shares it
+        for j, o in enumerate(table):
+            if j != i:
+                ctx.assume(snot(sand(o.key == e.key, o.mask == e.mask)))
+    window_keys = [P_hi | const(w) for w in range(1 << W)]
+    for _name, c in _invariant(ctx, table, alias_sets, window_keys, W):
+        ctx.assume(c)
+    pk = ctx.bv("pk", 32)
+    before = list(table)
+    try:
+        merge = oc._get_best_merge(table, aliases)
+        if merge.goodness <= 0:
+            ctx.witness("no-merge")
+            ctx.observe("no merge")
+            return
+        new_table, new_aliases = merge.apply(aliases)
+    except Exception as e:
+        ctx.observe(type(e).__name__)
+        ctx.prove(False, "minimise-unexpected-exception", repr(e))
+        return
+    ctx.witness("merged")
+    ctx.observe(len(new_table), sorted(merge.entries),
+                [(e.key, e.mask) for e in new_table])
+    ctx.prove(len(new_table) == n - len(merge.entries) + 1
+              and all(e is not None for e in new_table), "step-table-size")
+    ctx.prove(table == before, "minimise-argument-modified")
+    new_sets = []
+    for e in new_table:
+        s = new_aliases.get((e.key, e.mask))
+        new_sets.append(None if s is None else sorted(
+            s, key=lambda a: 0))        # any order; keys are symbolic
+    if any(s is not None for s in new_sets):
+        ctx.witness("aliases-carried")
+    for name, c in _invariant(ctx, new_table, new_sets, window_keys, W):
+        ctx.prove(c, "step-invariant-" + name)
+    ids = {}
+
+    def rid(route):
+        return ids.setdefault(frozenset(route), len(ids))
+    d0, r0, s0 = _step_lookup(table, alias_sets, pk, rid)
+    d1, r1, s1 = _step_lookup(new_table, new_sets, pk, rid)
+    ctx.prove(sor(sand(d0, d1), sand(snot(d0), snot(d1))),
+              "step-domain-changed", ("pk", pk))
+    ctx.prove(sor(snot(d0), sand(r0 == r1, (s1 & s0) == s0)),
+              "minimise-route-changed", ("pk", pk, r0, r1, s0, s1))
+
+
 def h_empty(ctx):
     from rig.routing_table import MinimisationFailedError
     from rig.routing_table import remove_default_routes as rdr
@@ -366,11 +494,26 @@ def units(tier, seed):
     # the method chain, one and many chips
     add("chain", 3, 2, "AAB", "ddu", "orthogonal", "sym", split=5)
     add("tables", 2, 3, "AA", "du", "sorted", "sym", split=4)
+    # the chain without a target: a default-routable entry next to two
+    # mergeable ones (every method must start from the original table)
+    add("chain", 3, 2, "ACC", "duu", "orthogonal", "none", split=5,
+        wit=("returned", "shrunk"))
+    add("tables", 3, 2, "CAC", "udu", "sorted", "none", split=5,
+        wit=("returned", "shrunk"))
     us.append(Unit("tables two chips W=2 A=AA B=BBA target=none", h_two_chips,
                    dict(W=2, routes_a="AA", routes_b="BBA", srcs_b="uuu",
                         target="none"), split=6,
                    witnesses=("returned", "first-chip-merged"),
                    path_timeout_s=300, timeout_ms=300000))
+    # one inductive merge step from an arbitrary state satisfying the
+    # invariant (alias shapes that whole runs only reach on larger tables)
+    def step(W, routes, srcs, nal, split=6):
+        us.append(Unit("step W=%d routes=%s srcs=%s aliases=%s" % (
+            W, routes, srcs, "".join(map(str, nal))), h_step,
+            dict(W=W, routes=routes, srcs=srcs, n_aliases=nal), split=split,
+            witnesses=("merged",), path_timeout_s=300, timeout_ms=300000))
+    step(2, "AAB", "uuu", (0, 0, 2))
+    step(2, "AAB", "udu", (2, 0, 0))
     if tier == "thorough":
         us.append(Unit("tables two chips W=3 A=AA B=BBA target=sym",
                        h_two_chips,
